@@ -54,14 +54,34 @@ class _Text(str):
 
 
 def wrapped_inputs_agree(mon, ctor, o_ctor, o_unv, text, kw, w, tag):
-    """The same text handed over as an (unvalidated) library object or as another str subclass must be
-    judged like the plain string."""
-    for name, arg in (("unvalidated_object", o_unv.value if o_unv.ok else None), ("str_subclass", _Text(text))):
+    """The same text handed over as an (unvalidated) library object, as an object that was validated under
+    the *default* flags, or as another str subclass must be judged like the plain string."""
+    plain = observe(ctor, text) if kw else o_ctor
+    for name, arg in (("unvalidated_object", o_unv.value if o_unv.ok else None), ("str_subclass", _Text(text)),
+                      ("object_validated_with_default_flags", plain.value if plain.ok else None)):
         if arg is None:
             continue
         o = observe(ctor, arg, **kw)
         if o.ok != o_ctor.ok:
             mon.viol(f"{tag}:text_passed_as_{name}_judged_differently", w, o_ctor.brief(), o.brief())
+
+
+def repeated_validation_consistent(mon, text, o_ctor_flag, w, tag="iban"):
+    """One object validated repeatedly / first without and then with national validation must end up with
+    the verdict of a fresh IBAN(text, validate_bban=True)."""
+    S = lib()
+    for route in ("twice", "plain_then_flag", "validated_object_then_flag"):
+        obj = observe(S.IBAN, text, allow_invalid=(route != "validated_object_then_flag"))
+        if not obj.ok:
+            continue
+        if route == "twice":
+            observe(obj.value.validate, validate_bban=True)
+        elif route == "plain_then_flag":
+            observe(obj.value.validate)
+            observe(lambda: obj.value.is_valid)
+        o = observe(obj.value.validate, validate_bban=True)
+        if o.ok != o_ctor_flag.ok:
+            mon.viol(f"{tag}:repeated_validation_changes_verdict:{route}", w, o_ctor_flag.brief(), o.brief())
 
 
 def judge_iban_accept(mon: Mon, text: str, table, tag: str):
@@ -128,6 +148,8 @@ def judge_iban_total(mon: Mon, text: str, table, tag: str, validate_bban: bool =
         mon.viol("ctor_vs_is_valid_disagree", w, o_ctor.brief(), o_isv.brief())
     if validate_bban and o_isv.ok and o_ctor.ok and not o_isv.value:
         mon.viol("national_accept_but_is_valid_false", w, o_ctor.brief(), o_isv.brief())
+    if validate_bban and exp.verdict == R.ACCEPT:
+        repeated_validation_consistent(mon, text, o_ctor, w)
     mon.distinct(("iban5", exp.norm, validate_bban))
     # class of the error vs defects present
     for name, o in (("ctor", o_ctor), ("validate", o_val)):
